@@ -18,6 +18,7 @@ fn not_ok(ctx: &Ctx, kind: &str, case: &str, out: &Outcome, detail: serde_json::
 
 fn one<X: Sx, Y: Sx>(ctx: &Ctx, idx: u64, l: usize, m: usize, all_flips: bool) {
     let mut r = ctx.rng("c06", idx);
+    history_warmup::<X>(ctx, &mut r, (l + m).min(40));
     let (sk, pk) = keypair::<X>(&mut r);
     let msgs = gen_messages(&mut r, l, 0);
     let cm = gen_messages(&mut r, m, 0);
@@ -67,6 +68,40 @@ fn one<X: Sx, Y: Sx>(ctx: &Ctx, idx: u64, l: usize, m: usize, all_flips: bool) {
         mix.extend_from_slice(&cwp[48..]);
         sign_with("point-of-B-proof-of-A", "-".into(), &mix);
     }
+    // special commitment points with a proof that was not made for them: the identity, the generators Q2 / J_1,
+    // the negated commitment
+    {
+        let mut inf = [0u8; 48];
+        inf[0] = 0xc0;
+        let bg = crate::refimpl::blind_generators(X::ID, m + 1);
+        let neg = {
+            let mut x = cwp[..48].to_vec();
+            x[0] ^= 0x20;
+            x
+        };
+        let specials: Vec<(&str, Vec<u8>)> = vec![
+            ("identity", inf.to_vec()),
+            ("Q2", crate::refimpl::g1_c(&bg[0]).to_vec()),
+            ("last-blind-generator", crate::refimpl::g1_c(bg.last().unwrap()).to_vec()),
+            ("negated", neg),
+        ];
+        for (nm, pt) in specials {
+            let mut c = pt.clone();
+            c.extend_from_slice(&cwp[48..]);
+            sign_with("special-point-with-foreign-proof", format!("{nm}/honest-scalars"), &c);
+            let mut c = pt.clone();
+            for _ in 0..m + 2 {
+                c.extend_from_slice(&crate::refimpl::scalar_be(&crate::c04::rand_scalar(&mut r)));
+            }
+            sign_with("special-point-with-foreign-proof", format!("{nm}/random-scalars"), &c);
+            let mut c = pt.clone();
+            c.extend(vec![0u8; 32 * (m + 2)]);
+            if nm != "identity" {
+                // (identity with the all-zero proof is a VALID proof of the all-zero opening: not asserted)
+                sign_with("special-point-with-foreign-proof", format!("{nm}/zero-scalars"), &c);
+            }
+        }
+    }
     // commitment made under the other suite
     if let Some((comy, _)) = ctx.call("commit", &base, None, || Com::<Y>::commit(Some(&cm))).value {
         sign_with("other-suite", "-".into(), &comy.to_bytes());
@@ -98,7 +133,8 @@ fn one<X: Sx, Y: Sx>(ctx: &Ctx, idx: u64, l: usize, m: usize, all_flips: bool) {
         not_ok(ctx, &format!("verify_blind_sign/{}", kind), &case, &o.outcome, json!({"messages":msgs_json(ms),"committed":msgs_json(cs),"header":h.map(hx)}));
     };
     for (which, list) in [("signer", &msgs), ("committed", &cm)] {
-        for i in 0..list.len() {
+        let positions: Vec<usize> = if list.len() <= 8 { (0..list.len()).collect() } else { vec![0, 1, list.len() / 2, 64.min(list.len() - 1), list.len() - 2, list.len() - 1] };
+        for i in positions {
             let edits: Vec<(&str, Vec<Vec<u8>>)> = vec![
                 ("altered", { let mut x = list.clone(); if x[i].is_empty() { x[i].push(1) } else { x[i][0] ^= 1 }; x }),
                 ("removed", { let mut x = list.clone(); x.remove(i); x }),
@@ -115,7 +151,7 @@ fn one<X: Sx, Y: Sx>(ctx: &Ctx, idx: u64, l: usize, m: usize, all_flips: bool) {
                     vb(&format!("committed-msg-{k}"), format!("{i}"), &pk, ho, &msgs, &e, Some(&blind));
                 }
             }
-            for j in i + 1..list.len() {
+            for j in (i + 1..list.len()).take(6) {
                 if list[i] != list[j] {
                     let mut x = list.clone();
                     x.swap(i, j);
@@ -224,8 +260,10 @@ fn one<X: Sx, Y: Sx>(ctx: &Ctx, idx: u64, l: usize, m: usize, all_flips: bool) {
                    json!({"L_used":ll.map(|x| x.to_string()),"signer_idx":d_.iter().map(|x| x.to_string()).collect::<Vec<_>>(),"committed_idx":c_.iter().map(|x| x.to_string()).collect::<Vec<_>>(),
                           "signer_msgs":msgs_json(dm_),"committed_msgs":msgs_json(dcm_),"honest":{"L":l,"M":m,"D":d,"C":c},"proof":hx_full(&p.to_bytes()),"pk":hx_full(&pk_.to_bytes()),"header":h.map(hx),"ph":ph_.map(hx)}));
         };
-        // disclosed data edits
-        for k in 0..d.len() {
+        // disclosed data edits (all positions for small shapes, a spread of positions for large ones)
+        let pick_idx = |n: usize| -> Vec<usize> { if n <= 8 { (0..n).collect() } else { vec![0, 1, n / 2, n - 2, n - 1] } };
+        let big = l + m > 12;
+        for k in pick_idx(d.len()) {
             let mut x = dm.clone();
             if x[k].is_empty() { x[k].push(1) } else { x[k][0] ^= 1 }
             pv("signer-msg-altered", format!("{k}"), &proof, &pk, ho, po, Some(l), &x, &dcm, d, c);
@@ -234,7 +272,8 @@ fn one<X: Sx, Y: Sx>(ctx: &Ctx, idx: u64, l: usize, m: usize, all_flips: bool) {
             x.remove(k);
             xi.remove(k);
             pv("signer-pair-dropped", format!("{k}"), &proof, &pk, ho, po, Some(l), &x, &dcm, &xi, c);
-            for to in (0..l + m + 3).chain([usize::MAX]) {
+            let tos: Vec<usize> = if !big { (0..l + m + 3).collect() } else { vec![0, 1, d[k].saturating_sub(1), d[k] + 1, d[k] + 64, d[k].wrapping_sub(64), l - 1, l, l + 1, l + m, l + m + 1, l + m + 2] };
+            for to in tos.into_iter().chain([usize::MAX]) {
                 if to != d[k] {
                     let mut xi = d.clone();
                     xi[k] = to;
@@ -242,7 +281,7 @@ fn one<X: Sx, Y: Sx>(ctx: &Ctx, idx: u64, l: usize, m: usize, all_flips: bool) {
                 }
             }
         }
-        for k in 0..c.len() {
+        for k in pick_idx(c.len()) {
             let mut x = dcm.clone();
             if x[k].is_empty() { x[k].push(1) } else { x[k][0] ^= 1 }
             pv("committed-msg-altered", format!("{k}"), &proof, &pk, ho, po, Some(l), &dm, &x, d, c);
@@ -251,7 +290,8 @@ fn one<X: Sx, Y: Sx>(ctx: &Ctx, idx: u64, l: usize, m: usize, all_flips: bool) {
             x.remove(k);
             xi.remove(k);
             pv("committed-pair-dropped", format!("{k}"), &proof, &pk, ho, po, Some(l), &dm, &x, d, &xi);
-            for to in (0..m + 2).chain([usize::MAX, usize::MAX - l, usize::MAX - l - 1]) {
+            let tos: Vec<usize> = if !big { (0..m + 2).collect() } else { vec![0, 1, c[k].saturating_sub(1), c[k] + 1, c[k] + 64, m - 1, m, m + 1] };
+            for to in tos.into_iter().chain([usize::MAX, usize::MAX - l, usize::MAX - l - 1]) {
                 if to != c[k] {
                     let mut xi = c.clone();
                     xi[k] = to;
@@ -270,7 +310,7 @@ fn one<X: Sx, Y: Sx>(ctx: &Ctx, idx: u64, l: usize, m: usize, all_flips: bool) {
                &sd.iter().map(|p| p.1.clone()).collect::<Vec<_>>(), &xcm, &sd.iter().map(|p| p.0).collect::<Vec<_>>(), &xc);
         }
         // reverse re-labelling: signer (i, msg) presented in the committed list with wrapped index
-        for k in 0..d.len() {
+        for k in pick_idx(d.len()) {
             let mut xd = d.clone();
             let mut xdm = dm.clone();
             xd.remove(k);
@@ -334,6 +374,14 @@ pub fn scenarios(ctx: &Ctx) -> Vec<Scenario> {
     let mut idx = 0u64;
     let ls: &[usize] = ctx.t(&[0, 1, 3], &[0, 1, 2, 3, 5]);
     let ms: &[usize] = ctx.t(&[0, 1, 2, 5], &[0, 1, 2, 3, 5, 8]);
+    // large shapes: positions deep in either list
+    for (l, m) in ctx.t(&[(70usize, 2usize)][..], &[(70usize, 2usize), (2, 70), (130, 5)][..]) {
+        let (l, m) = (*l, *m);
+        let i = 9000 + idx;
+        idx += 1;
+        v.push(scenario(format!("sha/L{l}/M{m}"), move |c| one::<Sha, Shake>(c, i, l, m, false)));
+        v.push(scenario(format!("shake/L{l}/M{m}"), move |c| one::<Shake, Sha>(c, i, l, m, false)));
+    }
     for rep in 0..ctx.t(1, 3) {
         for &l in ls {
             for &m in ms {
